@@ -35,7 +35,13 @@ impl BlobWriter {
         Ok(())
     }
 
-    pub(crate) fn write_record(&mut self, record: Record) -> AnyResult<()> {
+    pub(crate) fn write_record(&mut self, mut record: Record) -> AnyResult<()> {
+        // Record can be written to the position that differs from its position in the source blob
+        // (e.g. when some damaged record before it was skipped), while storage reads data by the offset
+        // stored in the header
+        if record.header.blob_offset() != self.written {
+            record.header = record.header.with_blob_offset(self.written)?;
+        }
         bincode::serialize_into(&mut self.file, &record.header).with_context(|| "write header")?;
         let mut written = 0;
         written += bincode::serialized_size(&record.header)?;
